@@ -218,21 +218,13 @@ def checkPass (rs : List DRegion) : RegionOut := Id.run do
     -- order inside nudging regions
     if !r0.ju then
       for r in rs do
-        let rec adj : List RSeg → Option (RSeg × RSeg × String)
-          | a :: b :: rest =>
-            if b.pos < a.pos then some (a, b, "position")
-            else if a.pos == b.pos then
-              let fa := fixedOrder r.base a
-              let fb := fixedOrder r.base b
-              if (fa.2 || fb.2) && fa.1 != fb.1 then
-                (if fb.1 < fa.1 then some (a, b, "fixedOrder") else adj (b :: rest))
-              else if order a != order b then
-                (if order b < order a then some (a, b, "order (c-bend direction)") else adj (b :: rest))
-              else adj (b :: rest)
-            else adj (b :: rest)
-          | _ => none
-        match adj r.segs with
-        | some (a, b, why) =>
+        -- `orderViolation`: sound for every comparator that agrees with the rules (Props/C10Region.linesort_respects_rules)
+        match orderViolation r.base r.segs with
+        | some (a, b) =>
+          let why := if a.pos != b.pos then "position" else
+            let fa := fixedOrder r.base a
+            let fb := fixedOrder r.base b
+            if (fa.2 || fb.2) && fa.1 != fb.1 then "fixedOrder" else "order (c-bend direction)"
           return out.div s!"region {r.idx} (dim {r.dim}): segment of connector {a.conn} at {ratToString a.pos} is placed directly before segment of connector {b.conn} at {ratToString b.pos} although the {why} rule of CmpLineOrder puts it after"
         | none => pure ()
     return out
